@@ -82,6 +82,8 @@ def run_case(case, acc, order):
     labelings = [tuple(only['labels'])] if only is not None else \
         itertools.product(alphabet, repeat=n)
     for labels in labelings:
+        if core.too_many_timeouts():
+            return
         acc.state()
         labels_arr = np.array(labels, dtype=ctype)
         present = sorted(set(labels))
@@ -98,11 +100,14 @@ def run_case(case, acc, order):
                 idx = [full_ids.index(c) for c in eff]
                 C = Cfull[np.ix_(idx, idx)]
                 for sym in (False, True):
+                    if core.too_many_timeouts():
+                        return
                     exp = ref_symmetric(C) if sym else C
                     try:
-                        got = correlograms(times, labels_arr, cluster_ids=ids, sample_rate=rate,
-                                           bin_size=bin_size, window_size=window, symmetrize=sym)
-                    except Exception as e:
+                        with core.time_limit(5):
+                            got = correlograms(times, labels_arr, cluster_ids=ids, sample_rate=rate,
+                                               bin_size=bin_size, window_size=window, symmetrize=sym)
+                    except (Exception, core.CaseTimeout) as e:
                         got = e
                     ok = isinstance(got, np.ndarray) and arr_equal(got, exp, dtype=False)
                     acc.step(nontrivial, 'ccg:%s:%s' % ('sym' if sym else 'one', lname))
@@ -136,7 +141,7 @@ def run_case(case, acc, order):
                 exp = np.outer(cnt, cnt) * (bin_size / (dur or 1.))
                 try:
                     got = firing_rate(labels_arr, cluster_ids=ids, bin_size=bin_size, duration=dur)
-                except Exception as e:
+                except (Exception, core.CaseTimeout) as e:
                     got = e
                 trailing_empty = ids is not None and len(ids) and counts_full[ids[-1]] == 0
                 acc.step(bool(trailing_empty) or len(present) >= 2, 'rate:%s' % lname)
